@@ -266,6 +266,11 @@ func checkBalloons(e *executor, r *stepResult) *vfkit.Violation {
 			continue
 		}
 		bl := v.byCtr[c.ID]
+		if ann, ok := effAnn(&e.m.pods[c.Pod].Spec, balloonAnnKey, c.Spec.Name); ok && len(bl) == 0 {
+			if _, known := v.defs[ann]; !known {
+				continue // annotated with an unknown balloon type: refusing it is the documented behaviour
+			}
+		}
 		if len(bl) != 1 {
 			names := []string{}
 			for _, b := range bl {
@@ -274,7 +279,7 @@ func checkBalloons(e *executor, r *stepResult) *vfkit.Violation {
 			sig := fmt.Sprintf("container-in-%d-balloons", len(bl))
 			if len(bl) == 0 && e.rejectedReconfigs > 0 {
 				sig += ":after-rejected-reconfiguration"
-			} else if len(bl) == 0 && lost[c.ID] == "Synchronize" {
+			} else if len(bl) == 0 && (lost[c.ID] == "Synchronize" || (r.Handler == "Synchronize" && e.steps <= 1)) {
 				sig = "container-without-balloon-after-synchronize-could-not-readmit-it"
 			} else if len(bl) == 0 && e.reconfigured {
 				sig = "container-without-balloon-after-accepted-reconfiguration"
